@@ -5,7 +5,7 @@
 (*   Level 2 (thorough): + f3, <= 3 sub-files, more collisions, an inline component, pre-existing "dir"     *)
 (* MaxFaults bounds how many of {invalid value, unserialisable value, environment fault} are present.       *)
 EXTENDS Save, Json, SequencesExt
-CONSTANTS Level, MaxFaults, Emit
+CONSTANTS Level, MaxFaults, Emit, Ext     \* Ext = 0: the universe of rounds 1-2; 1 / 2: + the round-4 territory (quick / thorough)
 
 S(k, n) == <<k, n, "cfg">>
 P(k, n) == <<k, n, "content">>
@@ -32,11 +32,27 @@ MaxN       == IF Level = 1 THEN 3 ELSE 4
 Faults     == {NoFault, [kind |-> "format", n |-> 0], [kind |-> "noparent", n |-> 0]}
               \cup {[kind |-> k, n |-> n] : k \in {"open", "write"}, n \in 1..MaxN}
 InvalidAt  == {"none", "main", "s1", "s2"}
+\* ---- round 4: skip_validation, sub-files of ActionJsonSchema ("js", dumped) and ActionJsonnet ("jn", kind "orig": written
+\* as the text it was loaded from), a component edited after loading, fsspec targets
+O(k, n) == <<k, n, "orig">>
+XSubChoices == { <<O("jn", "f1")>>,
+                 <<S("js", "f2")>> }
+               \cup (IF Ext >= 2 THEN { <<O("jn", "f1"), S("js", "f2")>>, <<O("jn", "f2"), S("s1", "f1")>>, <<S("d", "f3"), O("jn", "f1"), S("js", "f2")>>,
+                                        <<O("jn", "f1"), S("js", "f1")>>,              \* collision with an orig file
+                                        <<O("jn", "main")>>,
+                                        <<P("p", "f3"), O("jn", "f1"), S("s1", "f2")>> } ELSE {})
+XEditedAt  == IF Ext < 2 THEN {"none", "jn", "js"} ELSE {"none", "main", "s1", "jn", "js"}
+XInvalidAt == IF Ext < 2 THEN {"none", "jn"} ELSE {"none", "main", "s1", "jn"}
+XUnserAt   == IF Ext < 2 THEN {"none", "main"} ELSE {"none", "main", "s1"}                        \* (an unserialisable object never sits in a jsonnet / jsonschema value)
+XFaults    == IF Ext < 2 THEN {NoFault, [kind |-> "write", n |-> 2]}
+              ELSE {NoFault, [kind |-> "format", n |-> 0]} \cup {[kind |-> k, n |-> n] : k \in {"open", "write"}, n \in 1..2}
+FsFaults   == {NoFault, [kind |-> "format", n |-> 0]} \cup {[kind |-> "open", n |-> n] : n \in 1..2}
 UnserAt    == {"none", "main", "s1", "s2", "d"}
-Contents   == {"absent", "dir", "old", "empty", "main", "s1", "s2", "d", "p"}
+Contents   == {"absent", "dir", "old", "empty", "main", "s1", "s2", "d", "p", "jn", "js", Stale("jn")}
 PCs        == {"format", "resolve", "check_main", "s_open", "s_validate", "s_serialize", "s_write", "m_clone", "m_validate",
                "m_sub", "m_sub_resolve", "m_sub_check", "m_sub_dump", "m_sub_open", "m_sub_write", "m_sub_replace",
-               "m_open", "m_serialize", "m_write", "m_flush", "done", "failed"}
+               "m_open", "m_serialize", "m_write", "m_flush", "done", "failed",
+               "fs_probe", "fs_probe_close", "fs_multi", "fs_open", "fs_validate", "fs_serialize", "fs_write"}
 
 NFaults(iv, un, ft) == (IF iv # "none" THEN 1 ELSE 0) + (IF un # "none" THEN 1 ELSE 0) + (IF ft.kind # "none" THEN 1 ELSE 0)
 UsedNames(q) == {"main"} \cup {SubName(x) : x \in Range(q)}
@@ -53,7 +69,7 @@ PreOK(q, ft, pre) ==
 VARIABLES sc, st
 vars == <<sc, st>>
 
-Init == \E mf \in BOOLEAN, ow \in BOOLEAN, q \in SubChoices, iv \in InvalidAt, un \in UnserAt, ft \in Faults :
+BaseInit == \E mf \in BOOLEAN, ow \in BOOLEAN, q \in SubChoices, iv \in InvalidAt, un \in UnserAt, ft \in Faults :
           /\ NFaults(iv, un, ft) <= MaxFaults
           /\ mf \/ \A x \in Range(q) : SubKind(x) = "cfg"       \* a relative path value saved elsewhere in one file: not a save() matter
           /\ \E ip \in BOOLEAN :
@@ -61,8 +77,62 @@ Init == \E mf \in BOOLEAN, ow \in BOOLEAN, q \in SubChoices, iv \in InvalidAt, u
                /\ \E pre \in (IF ip THEN {InplacePre(q)} ELSE [Files -> PreKinds]) :
                     /\ ip \/ PreOK(q, ft, pre)
                     /\ sc = [multifile |-> mf, overwrite |-> ow, subs |-> q, invalid |-> iv, unser |-> un, fault |-> ft,
-                             pre |-> pre, inplace |-> ip]
+                             pre |-> pre, inplace |-> ip, skipval |-> FALSE, edited |-> "none", scheme |-> "path"]
                     /\ st = Start(sc)
+
+Sc(mf, ow, q, iv, un, ft, pre, sv, ed, sch) ==
+  [multifile |-> mf, overwrite |-> ow, subs |-> q, invalid |-> iv, unser |-> un, fault |-> ft, pre |-> pre, inplace |-> FALSE,
+   skipval |-> sv, edited |-> ed, scheme |-> sch]
+HasKey(q, k) == k \in {"none", "main"} \/ \E x \in Range(q) : SubKey(x) = k
+\* quick: the files save() would write are all absent or all the user's old data; thorough: every combination
+XPres(q) == IF Ext < 2 THEN {[f \in Files |-> IF f \in UsedNames(q) THEN c ELSE "absent"] : c \in {"absent", "old"}}
+            ELSE {pre \in [Files -> {"absent", "old"}] : \A f \in Files \ UsedNames(q) : pre[f] = "absent"}
+                 \cup {[f \in Files |-> IF f \in UsedNames(q) THEN "empty" ELSE "absent"],
+                       [f \in Files |-> IF f = "main" THEN "dir" ELSE "absent"],
+                       [f \in Files |-> IF f = "main" THEN "absent" ELSE IF f \in UsedNames(q) THEN "dir" ELSE "absent"]}
+\* (a) skip_validation=True on the sub-file layouts of rounds 1-2, with or without an invalid value
+InitSkipval == \E mf \in BOOLEAN, ow \in BOOLEAN, q \in (IF Ext < 2 THEN {<< >>, <<S("s1", "f1")>>, <<S("s1", "f1"), S("s2", "f2")>>, <<P("p", "f2"), S("s1", "f1")>>} ELSE SubChoices1), iv \in InvalidAt, un \in {"none", "main", "s1"}, ft \in XFaults :
+          /\ NFaults("none", un, ft) <= 1
+          /\ mf \/ \A x \in Range(q) : SubKind(x) = "cfg"
+          /\ (Ext < 2) => (iv \in {"main", "s1"} /\ un = "none")
+          /\ \E pre \in XPres(q) :
+               /\ sc = Sc(mf, ow, q, iv, un, ft, pre, TRUE, "none", "path")
+               /\ st = Start(sc)
+\* (b) jsonnet / jsonschema sub-files, a component edited after loading
+InitOrig == \E mf \in BOOLEAN, ow \in BOOLEAN, q \in XSubChoices, iv \in XInvalidAt, un \in XUnserAt, ft \in XFaults, ed \in XEditedAt, sv \in BOOLEAN :
+          /\ NFaults(iv, un, ft) <= 1
+          /\ HasKey(q, iv) /\ HasKey(q, un) /\ HasKey(q, ed)
+          /\ mf \/ \A x \in Range(q) : SubKind(x) # "content"       \* (as in BaseInit: a path value saved elsewhere in ONE file is not a save() matter)
+          /\ sv => (Ext >= 2 /\ iv # "none")
+          \* (+ overwrite=False with a NEW main file and existing sub-files: the refusal has to come from the sub-file's own check)
+          /\ \E pre \in XPres(q) \cup (IF ~ow THEN {[f \in Files |-> IF f # "main" /\ f \in UsedNames(q) THEN "old" ELSE "absent"]} ELSE {}) :
+               /\ sc = Sc(mf, ow, q, iv, un, ft, pre, sv, ed, "path")
+               /\ st = Start(sc)
+\* (c) an fsspec target (local://...): single file only -- multifile=True is refused, but after the probe
+InitFsspec == \E mf \in BOOLEAN, ow \in BOOLEAN, q \in (IF Ext < 2 THEN {<< >>} ELSE {<< >>, <<S("s1", "f1")>>}), iv \in {"none", "main", "s1"}, un \in {"none", "main", "s1"},
+                 ft \in FsFaults, sv \in BOOLEAN :
+          /\ NFaults(iv, un, ft) <= (IF Ext < 2 THEN 1 ELSE 2)
+          /\ sv => iv # "none"
+          /\ \E pre \in XPres(q) \cup {[f \in Files |-> IF f = "main" THEN "empty" ELSE "absent"]} :
+               /\ sc = Sc(mf, ow, q, iv, un, ft, pre, sv, "none", "fsspec")
+               /\ st = Start(sc)
+\* (d) the target spelled file:///abs/path: a local file -- every flag, an existing target and existing sub-files included
+InitFileUrl == \E mf \in BOOLEAN, ow \in BOOLEAN, q \in {<< >>, <<S("s1", "f1")>>} \cup (IF Ext >= 2 THEN {<<S("s1", "f1"), S("s2", "f2")>>, <<P("p", "f2"), S("s1", "f1")>>} ELSE {}),
+                  iv \in {"none", "main"}, un \in {"none", "main", "s1"}, ft \in XFaults :
+          /\ NFaults(iv, un, ft) <= 1
+          /\ mf \/ \A x \in Range(q) : SubKind(x) = "cfg"
+          /\ \E pre \in [Files -> {"absent", "old"}] \cup XPres(q) :
+               /\ \A f \in Files \ UsedNames(q) : pre[f] = "absent"
+               /\ sc = Sc(mf, ow, q, iv, un, ft, pre, FALSE, "none", "fileurl")
+               /\ st = Start(sc)
+\* (e) an in-memory fsspec target (memory://...): like (c), without faults the harness could not inject
+InitMemory == \E mf \in BOOLEAN, ow \in BOOLEAN, iv \in {"none", "main"}, un \in {"none", "main"}, ft \in {NoFault, [kind |-> "format", n |-> 0]}, sv \in BOOLEAN :
+          /\ NFaults(iv, un, ft) <= 1
+          /\ sv => iv # "none"
+          /\ \E c \in {"absent", "old", "empty"} :
+               /\ sc = Sc(mf, ow, << >>, iv, un, ft, [f \in Files |-> IF f = "main" THEN c ELSE "absent"], sv, "none", "memory")
+               /\ st = Start(sc)
+Init == BaseInit \/ (Ext >= 1 /\ (InitSkipval \/ InitOrig \/ InitFsspec \/ InitFileUrl \/ InitMemory))
 
 \* one TLC action per step of save() (so that -coverage counts each of them)
 A_CheckFormat   == st.pc = "format" /\ st' = CheckFormat(sc, st) /\ UNCHANGED sc
@@ -85,10 +155,18 @@ A_MOpen         == st.pc = "m_open" /\ st' = MOpen(sc, st) /\ UNCHANGED sc
 A_MSerialize    == st.pc = "m_serialize" /\ st' = MSerialize(sc, st) /\ UNCHANGED sc
 A_MWrite        == st.pc = "m_write" /\ st' = MWrite(sc, st) /\ UNCHANGED sc
 A_MFlush        == st.pc = "m_flush" /\ st' = MFlush(sc, st) /\ UNCHANGED sc
+A_FsProbe       == st.pc = "fs_probe" /\ st' = FsProbe(sc, st) /\ UNCHANGED sc
+A_FsProbeClose  == st.pc = "fs_probe_close" /\ st' = FsProbeClose(sc, st) /\ UNCHANGED sc
+A_FsMulti       == st.pc = "fs_multi" /\ st' = FsMulti(sc, st) /\ UNCHANGED sc
+A_FsOpen        == st.pc = "fs_open" /\ st' = FsOpen(sc, st) /\ UNCHANGED sc
+A_FsValidate    == st.pc = "fs_validate" /\ st' = FsValidate(sc, st) /\ UNCHANGED sc
+A_FsSerialize   == st.pc = "fs_serialize" /\ st' = FsSerialize(sc, st) /\ UNCHANGED sc
+A_FsWrite       == st.pc = "fs_write" /\ st' = FsWrite(sc, st) /\ UNCHANGED sc
 Next == \/ A_CheckFormat \/ A_ResolveTarget \/ A_CheckMain
         \/ A_SOpen \/ A_SValidate \/ A_SSerialize \/ A_SWrite
         \/ A_MClone \/ A_MValidate \/ A_MSubNext \/ A_MSubResolve \/ A_MSubCheck \/ A_MSubDump \/ A_MSubOpen
         \/ A_MSubWrite \/ A_MSubReplace \/ A_MOpen \/ A_MSerialize \/ A_MWrite \/ A_MFlush
+        \/ A_FsProbe \/ A_FsProbeClose \/ A_FsMulti \/ A_FsOpen \/ A_FsValidate \/ A_FsSerialize \/ A_FsWrite
 Spec == Init /\ [][Next]_vars
 
 Outcome == IF st.pc = "done" THEN "ok" ELSE IF st.pc = "failed" THEN "raise" ELSE "running"
@@ -99,21 +177,24 @@ TypeOK == /\ st.pc \in PCs /\ st.fs \in [Files -> Contents] /\ st.i \in 1..(Len(
 \* the steps and the recursive Run used by the trace specification are the same machine
 InvRunAgrees == Terminal(st) => Run(sc) = st
 \* C18, clause 1 -- holds in every state, also in the middle of a failing save
-InvNoSilentOverwrite == NoSilentOverwrite(sc, st.fs)
+\* (round 4: on an fsspec target the pinned tree VIOLATES it -- exactly as the named deviation, nothing else)
+InvNoSilentOverwrite == NoSilentOverwrite(sc, st.fs) \/ DevFsspecNoOverwriteCheck(sc, st.fs)
+\* ... a target that is a local file however it is spelled (plain path, file:// URL) is never touched without the request
+InvNoSilentOverwriteLocal == LocalBranch(sc) => NoSilentOverwrite(sc, st.fs)
 \* C18, clause 2 -- the pinned code VIOLATES it (MC_Save_cex_aon.cfg expects the counterexample) ...
 InvAllOrNothing == Terminal(st) => AllOrNothing(sc, Outcome, st.fired, st.fs)
 \* ... and every violation is one of the named deviations, nothing else
-KnownAtomicityDevs == {"single-open-before-dump", "multi-written-before-main-dump", "multi-written-before-sub-dump"}
+KnownAtomicityDevs == {"single-open-before-dump", "multi-written-before-main-dump", "multi-written-before-sub-dump", "fsspec-open-before-dump"}
 InvAllOrNothingModuloKnown == Terminal(st) => (AllOrNothing(sc, Outcome, st.fired, st.fs) \/ DevName(sc, st) \in KnownAtomicityDevs)
 \* C18, clause 3 -- violated exactly by file-name collisions (MC_Save_cex_rep.cfg expects the counterexample)
 InvSavedReparses == Terminal(st) => SavedReparses(sc, Outcome, st.fs, st.refs)
-InvSavedReparsesModuloKnown == Terminal(st) => (SavedReparses(sc, Outcome, st.fs, st.refs) \/ DevName(sc, st) \in {"multi-name-collision", "inplace-content-emptied"})
+InvSavedReparsesModuloKnown == Terminal(st) => (SavedReparses(sc, Outcome, st.fs, st.refs) \/ DevName(sc, st) \in {"multi-name-collision", "inplace-content-emptied", "multi-orig-text-stale"})
 \* the reason the algorithm gives for a failure is one the scenario really contains; it succeeds only when none is there
 InvCauseSound == /\ st.pc = "failed" => st.cause \in Causes(sc, st.fired)
-                 /\ st.pc = "done" => Causes(sc, st.fired) = {}
+                 /\ st.pc = "done" => (Causes(sc, st.fired) = {} \/ DevFsspecNoOverwriteCheck(sc, st.fs))
 \* a failure that is not one of the deviations leaves at most files that it legitimately wrote: nothing pre-existing is lost
 \* unless overwrite was requested
-InvOldDataKept == \A f \in Files : (IsFile(sc.pre[f]) /\ st.fs[f] # sc.pre[f]) => sc.overwrite
+InvOldDataKept == \A f \in Files : (IsFile(sc.pre[f]) /\ st.fs[f] # sc.pre[f]) => (sc.overwrite \/ DevFsspecNoOverwriteCheck(sc, st.fs))
 \* what the repairs guarantee
 InvAtomicSingle == (Terminal(st) /\ ~sc.multifile) => AllOrNothing(sc, Outcome, st.fired, st.fs)
 InvMainNotEmptiedByBadConfig == (st.pc = "failed" /\ st.cause \in {"invalid", "unserialisable"} /\ ~Collision(sc)) => st.fs["main"] = sc.pre["main"]
@@ -121,7 +202,8 @@ InvMainNotEmptiedByBadConfig == (st.pc = "failed" /\ st.cause \in {"invalid", "u
 \* ------------------------------------------------------------------ emission of the behaviours to replay
 FsSeq(f) == LET q == SetToSeq(DOMAIN f) IN [j \in 1..Len(q) |-> <<q[j], f[q[j]]>>]
 ScJson == [multifile |-> sc.multifile, overwrite |-> sc.overwrite, subs |-> sc.subs, invalid |-> sc.invalid, unser |-> sc.unser,
-           fault |-> <<sc.fault.kind, sc.fault.n>>, pre |-> FsSeq(sc.pre), inplace |-> sc.inplace]
+           fault |-> <<sc.fault.kind, sc.fault.n>>, pre |-> FsSeq(sc.pre), inplace |-> sc.inplace,
+           skipval |-> sc.skipval, edited |-> sc.edited, scheme |-> sc.scheme]
 EmitBehaviour ==
   (Emit /\ Terminal(st)) =>
     PrintT(ToJson([sc |-> ScJson, out |-> Outcome, cause |-> st.cause, fired |-> st.fired, fs |-> FsSeq(st.fs),
